@@ -1389,6 +1389,32 @@ def run_histories(rep, b, hs, variant, batch, env, timeout=120):
     return nsteps, procs
 
 
+def _unknown(rep):
+    from .. import report as RP
+    kf, _ = RP.load_findings(rep.prop)
+    return sum(1 for sig, _w in rep.violations if not any(RP._match(f["match"], sig) for f in kf))
+
+
+def _finish(rep, allprocs):
+    for p in allprocs:
+        for l in p.log_lines("HEAPCHECK-FAIL"):
+            rep.violation({"op": "heapcheck", "mode": l.split()[1]}, {"line": l})
+        for d in p.log_kv("HEAPCHECK-SUMMARY"):
+            rep.count("heap_checks", d.get("runs", 0))
+            rep.count("heap_objects_checked", d.get("objects", 0))
+    rep.extra["processes"] = len(allprocs)
+    rep.rule = ("seeded operation histories (<= 40 steps, three string variables, characters of UTF-8 width 1-4 and rarely "
+                "U+0000; operands built by random routes) checked after every step against a code-point-list model "
+                "(contents via string->list, string-length, string->utf8 bytes); port cases place a 1-4 byte character "
+                "across the 4096-byte buffer boundary; exhaustive scalar sweep inside chibi with a UTF-8 byte hash compared "
+                "to Python's codec. A case is one agreeing step; distinct = (operation, width class before/after or of the "
+                "operands, position/range class, storage class)")
+    rep.assumptions = ["Python's UTF-8 codec and list operations are the reference",
+                       "observations use char->integer, string->list, string-length, string->utf8, bytevector-u8-ref and "
+                       "write of integers/lists; a defect in those shows as a mismatch, not as silence",
+                       "only the first divergent step of a history is judged"]
+
+
 def check(rep, tier, seed):
     rng = random.Random(seed * 7919 + 12)
     b = B.ensure("hooks")
@@ -1400,15 +1426,30 @@ def check(rep, tier, seed):
     env = {"CHIBI_VERIF_HEAPCHECK": 1}
     allprocs = []
 
-    # -- histories on the hooks build
+    # -- histories on the hooks build, in chunks (a small one first): a badly broken tree (a crash or a hang at every
+    #    history) stops early instead of paying a watchdog timeout for each of 3000 histories
     hs = gen_histories(rng, nh)
-    nsteps, procs = run_histories(rep, b, hs, "hooks", 100, env)
-    allprocs += procs
-    rep.extra["histories"] = len(hs)
+    nsteps = 0
+    done = 0
+    bounds = [0, 120] + list(range(720, len(hs), 600)) + [len(hs)]
+    for c0, c1 in zip(bounds, bounds[1:]):
+        if c1 <= c0:
+            continue
+        n1, procs = run_histories(rep, b, hs[c0:c1], "hooks", 20 if c0 == 0 else 50, env, timeout=15)
+        nsteps += n1
+        done = c1
+        allprocs += procs
+        if _unknown(rep) >= 40:
+            rep.extra["stopped_early"] = "after %d of %d histories: %d unexplained violations" % (done, len(hs), _unknown(rep))
+            break
+    rep.extra["histories"] = done
     rep.extra["steps_agreeing"] = nsteps
-    rep.extra["steps_generated"] = sum(len(h["steps"]) for h in hs)
+    rep.extra["steps_generated"] = sum(len(h["steps"]) for h in hs[:done])
     for h in hs[:3]:
         rep.sample({"history": h["form"][:1500], "expected_lines": h["lines"][:4]})
+    if "stopped_early" in rep.extra:
+        _finish(rep, allprocs)
+        return
 
     # -- port cases
     tmpdir = R.scratch_dir("c12files")
@@ -1479,7 +1520,7 @@ def check(rep, tier, seed):
         ba = B.ensure("asan-rz")
         rep.builds.add("asan-rz")
         ha = gen_histories(random.Random(seed * 7919 + 14), nasan, prefix="a")
-        n2, procs = run_histories(rep, ba, ha, "asan-rz", 25 if quick else 100, {}, timeout=300)
+        n2, procs = run_histories(rep, ba, ha, "asan-rz", 25 if quick else 50, {}, timeout=60)
         rep.extra["asan_histories"] = len(ha)
         rep.extra["asan_steps_agreeing"] = n2
         for p in procs:
@@ -1488,20 +1529,4 @@ def check(rep, tier, seed):
                 rep.violation({"kind": "asan", "error": san["kind"].split(" on ")[0], "frame": _first_frame(san), "op": "?"},
                               {"stderr": p.err[-3000:]})
 
-    for p in allprocs:
-        for l in p.log_lines("HEAPCHECK-FAIL"):
-            rep.violation({"op": "heapcheck", "mode": l.split()[1]}, {"line": l})
-        for d in p.log_kv("HEAPCHECK-SUMMARY"):
-            rep.count("heap_checks", d.get("runs", 0))
-            rep.count("heap_objects_checked", d.get("objects", 0))
-    rep.extra["processes"] = len(allprocs)
-    rep.rule = ("seeded operation histories (<= 40 steps, three string variables, characters of UTF-8 width 1-4 and rarely "
-                "U+0000; operands built by random routes) checked after every step against a code-point-list model "
-                "(contents via string->list, string-length, string->utf8 bytes); port cases place a 1-4 byte character "
-                "across the 4096-byte buffer boundary; exhaustive scalar sweep inside chibi with a UTF-8 byte hash compared "
-                "to Python's codec. A case is one agreeing step; distinct = (operation, width class before/after or of the "
-                "operands, position/range class, storage class)")
-    rep.assumptions = ["Python's UTF-8 codec and list operations are the reference",
-                       "observations use char->integer, string->list, string-length, string->utf8, bytevector-u8-ref and "
-                       "write of integers/lists; a defect in those shows as a mismatch, not as silence",
-                       "only the first divergent step of a history is judged"]
+    _finish(rep, allprocs)
